@@ -2,7 +2,7 @@ SPECIFICATION Spec
 CONSTANTS
   MaxDims = 4
   Lens = {1, 2, 3}
-  MaxProbeLen = 2
+  MaxProbeLen = 3
   AB_NoShift = FALSE
   ShapeSet <- MCShapeSet
 INVARIANTS
